@@ -177,7 +177,7 @@ PROPS["C19"] = {
 
 PROPS["C09"] = {
     "level": "other",
-    "technique": "Verus contracts on the extracted persist_pending_deletions / load_pending_deletions (what is persisted at the end of a cycle is the complete pending list; after a restart exactly the persisted and the already pending paths are pending, each path once); Verus contracts on the extracted Compactor::garbage_collect (every path handed to the object store's delete was pending, past its grace period and unpinned when checked; the four closures are lifted and verified), Compactor::enforce_retention (only chunks whose newest row is older than the cut-off leave the catalog), BoundedClock::retention_cutoff_nanos and ChunkPinRegistry::is_pinned; Verus scope contract on the pinning region of QueryNode::query_for_tenant (the RAII pin guard taken for the selected chunk paths is alive when the statement is planned and executed and is released on every exit: guard directive, mode x)",
+    "technique": "Verus contracts on the extracted persist_pending_deletions / load_pending_deletions (what is persisted at the end of a cycle is the complete pending list; after a restart exactly the persisted and the already pending paths are pending, each path once); Verus contracts on the extracted Compactor::garbage_collect (every path handed to the object store's delete was pending, past its grace period and unpinned when checked; the four closures are lifted and verified), Compactor::enforce_retention (only chunks whose newest row is older than the cut-off leave the catalog), BoundedClock::retention_cutoff_nanos and the pin registry (is_pinned; pin adds one count per occurrence of each path, PinGuard::drop takes back exactly its own counts -- another guard's pin on the same path survives); Verus scope contract on the pinning region of QueryNode::query_for_tenant (the RAII pin guard taken for the selected chunk paths is alive when the statement is planned and executed and is released on every exit: guard directive, mode x)",
     "frame_scans": [{"file": "src/compactor/mod.rs", "patterns": [".delete(", ".delete_chunk("],
                      "allowed_units": ["garbage_collect", "enforce_retention"],
                      "message": "the compactor deletes objects only in garbage_collect and drops catalog entries only in enforce_retention (nothing else is ever deleted)"}],
